@@ -160,7 +160,6 @@ func journalDone(p *Program) {
 	os.Remove(filepath.Join(dir, fmt.Sprintf("inflight-%s-%s.json", p.Property, shardName())))
 }
 
-
 // tier parameters
 func envInt(name string, def int) int {
 	if v := os.Getenv(name); v != "" {
